@@ -218,6 +218,12 @@ void procs_gen(plan *p, uint64_t seed, const char *cfg)
         }
         nsteps[i] = emitted;
     }
+    /* growth templates for the tag pools and history arrays (rare: they are expensive) */
+    if (cfg_int(cfg, "big", 0) || vrng_chance(&r, 1, 400)) {
+        const int64_t who = (int64_t)vrng_below(&r, (uint64_t)np);
+        if (vrng_chance(&r, 1, 2)) plan_add(p, "TBURST", 2, who, (int64_t)(8000 + vrng_below(&r, 1500)));
+        if (noq > 0 && vrng_chance(&r, 1, 2)) plan_add(p, "QBURST", 3, who, (int64_t)vrng_below(&r, (uint64_t)noq), (int64_t)(16000 + vrng_below(&r, 1500)));
+    }
     /* attached faults: aimed at a victim's in-flight operation, event priority just around the victim's */
     if (faults > 0) {
         const int nf = (int)vrng_below(&r, faults == 1 ? 4 : 10) + (faults == 2 ? 2 : 0);
